@@ -10,7 +10,7 @@ Everything the verifiers see of /repo goes through this module on every run:
         impl std::ops::Not for RowIdMask
         fn not | struct X | enum X | const X | static X | mod m | trait T | type T
         arm "Self::And"                      (match arm whose pattern text starts with ...)
-        match#1 | stmts#a..b                 (region slicing, R7)
+        match#1 | stmts#a..b | loopbody#k    (region slicing, R7)
   * the named rewrites R1..R7 of DESIGN.md section 3.2 -- each application is
     counted and reported, nothing else is ever changed in the extracted text;
   * weaving of contract text at structural positions (signature, k-th loop,
@@ -686,12 +686,12 @@ def resolve(repo, address):
     parts = [p.strip() for p in address.split("::")]
     # re-join `std::ops::Not`-style paths that were split: a selector starts with a keyword
     KW = ("impl", "fn", "struct", "enum", "union", "const", "static", "mod", "trait", "type", "arm", "match",
-          "stmts", "macro_rules", "use")
+          "stmts", "loopbody", "macro_rules", "use")
     sels = []
     fpath = parts[0]
     for p in parts[1:]:
         kwm = re.match(r"^([a-z_]+)\b", p)
-        if (kwm and kwm.group(1) in KW) or p.startswith("match#") or p.startswith("stmts#"):
+        if (kwm and kwm.group(1) in KW) or p.startswith("match#") or p.startswith("stmts#") or p.startswith("loopbody#"):
             sels.append(p)
         else:
             if not sels:
@@ -703,8 +703,8 @@ def resolve(repo, address):
     kind = "item"
     region = None
     for sel in sels:
-        head = re.match(r"^([a-z_]+)", sel).group(1) if not sel.startswith(("match#", "stmts#")) else sel.split("#")[0]
-        if head in ("arm", "match", "stmts"):
+        head = re.match(r"^([a-z_]+)", sel).group(1) if not sel.startswith(("match#", "stmts#", "loopbody#")) else sel.split("#")[0]
+        if head in ("arm", "match", "stmts", "loopbody"):
             if region is None:
                 if item is None or item.body_open is None:
                     raise ExtractError("region selector without enclosing fn: %s" % address)
@@ -733,6 +733,15 @@ def resolve(repo, address):
                 if found is None:
                     raise ExtractError("anchor lost: %s (arm %s)" % (address, want))
                 region = found
+            elif head == "loopbody":
+                # R7: the statements of the body block of the n-th loop (source order) of the current region,
+                # without the loop header and the braces
+                n = int(sel.split("#")[1])
+                ls = find_loops(toks, region[0], region[1])
+                if n > len(ls):
+                    raise ExtractError("anchor lost: %s (only %d loops)" % (address, len(ls)))
+                kw, bo, bc = ls[n - 1]
+                region = (bo + 1, bc)
             elif head == "stmts":
                 m = re.match(r"stmts#(\d+)\.\.(\d+)", sel)
                 a, b = int(m.group(1)), int(m.group(2))
